@@ -93,9 +93,33 @@ pub fn sweep(ctx: &mut Ctx, tag: &str, title: &str, ops: OpMask, tx: &dyn Fn(&Di
             coords.push((HardKind::DiskFull, 0, c));
         }
     }
+    // thorough tier: drawn multi-fault sequences — one hard fault on top of a storm of benign ones
+    let mut multi: Vec<(HardKind, u64, u64, Benign)> = Vec::new();
+    if ctx.tier == Tier::Thorough && n > 0 {
+        for _ in 0..120 {
+            let kind = *ctx.ch.pick("c13.multi.kind", &[HardKind::ErrorOnce, HardKind::ErrorFrom, HardKind::WriteZero, HardKind::ShortOnce, HardKind::EintrOnce]);
+            // benign faults add events, so the index space is stretched
+            let at = ctx.ch.draw("c13.multi.at", n * 3 + 1);
+            let mut b = Benign::draw(&ctx.ch);
+            if !b.any() {
+                b.short_write = 200;
+                b.short_read = 200;
+                b.eintr_read = 100;
+                b.eintr_write = 100;
+            }
+            multi.push((kind, at, 0, b));
+        }
+        probe("c13_multi_fault_sequences");
+    }
     ctx.note(|| format!("{title}: fault-free twin has {n} events; sweeping {} fault placements", coords.len()));
-    for (kind, at, cap) in coords {
+    let all: Vec<(HardKind, u64, u64, Option<Benign>)> = coords
+        .into_iter()
+        .map(|(k, a, c)| (k, a, c, None))
+        .chain(multi.into_iter().map(|(k, a, c, b)| (k, a, c, Some(b))))
+        .collect();
+    for (kind, at, cap, ben) in all {
         let d = Disk::new(&ctx.ch, ctx.trace);
+        d.force_benign(ben);
         d.set_hard(Some(Hard {
             kind,
             at,
@@ -105,6 +129,8 @@ pub fn sweep(ctx: &mut Ctx, tag: &str, title: &str, ops: OpMask, tx: &dyn Fn(&Di
         let r = catch_unwind(AssertUnwindSafe(|| tx(&d)));
         let coord = if kind == HardKind::DiskFull {
             format!("disk_full(capacity={cap})")
+        } else if let Some(b) = ben {
+            format!("{kind:?} at event {at} amid benign faults {b:?}")
         } else {
             format!("{kind:?} at event {at} of {n}")
         };
